@@ -39,7 +39,7 @@ CLASS_NAMES = ["plain", "dquote", "backslash", "crlf", "nul", "brace", "blank", 
 WHOLE = ["", "{5}", "{5+}", "{0}", "{0+}", "LOGOUT", 'a" "b', 'x"\r\nLOGOUT\r\n"', "a\\", '\\"', "{3+}\r\nabc",
          "ACTIVE", "{99999999999}", " ", '"', "\\", "\r", "\n", "\r\n", "{", "a{1}", '""', "{1+}\r\n"]
 OPS = ["skip", "havespace", "getscript", "putscript", "deletescript", "setactive", "renamescript", "checkscript",
-       "putscript", "getscript", "capability", "listscripts", "logout"]
+       "putscript", "getscript", "capability", "listscripts", "logout", "reconnect"]
 
 
 def value(f, label, maxlen=12):
@@ -146,6 +146,7 @@ def run(ch, config, res):
     srv.scripts[b"beta"] = b"stop;\r\n"
     srv.active = b"beta"
     failure = None
+    world.net.sendall_faults = True
     with world:
         client = world.new_client()
         with ch.scope("op#0"):
@@ -168,13 +169,32 @@ def run(ch, config, res):
                         args = (value(wl, "content", 40),)
                     elif meth in ("capability", "listscripts", "logout"):
                         args = ()
+                    elif meth == "reconnect":
+                        o = world.call(client, "connect", "user", "password")
+                        failure = judge_connect(world, srv, o)
+                        res.count("reconnects")
+                        if failure is not None or not (o.kind == "ret" and o.value is True):
+                            break
+                        continue
                     elif meth == "renamescript":
                         if version:
                             args = (value(wl, "name"), value(wl, "name2"))
                         else:
                             # emulated: old must exist for anything to be sent beyond LISTSCRIPTS
                             args = (["alpha", "beta"][wl.int("old", 2)], value(wl, "name2"))
+                    faults_before = world.net.stats.probes.get("sendall_timeout", 0)
                     o = world.call(client, meth, *args)
+                if world.net.stats.probes.get("sendall_timeout", 0) > faults_before:
+                    # injected fault: a sendall of this call timed out before writing anything; the call's own outcome
+                    # is unconstrained (what it wrote before the fault must still decode), the *next* calls are judged as usual
+                    res.count("fault:sendall-timeout")
+                    viol = [v for v in srv.violations if v[1] == o.call_id]
+                    if viol:
+                        failure = Failure(PROP, "C08.malformed", "%s%r wrote bytes the strict decoder rejects: %s %r" % (meth, args, viol[0][2], viol[0][3]), {})
+                        break
+                    if o.kind == "hang":
+                        break
+                    continue
                 emu = meth == "renamescript" and not version
                 cl = classes_of(args)
                 if cl:
@@ -194,6 +214,9 @@ def judge_connect(world, srv, o):
     viol = [v for v in srv.violations if v[1] == o.call_id]
     if viol:
         return Failure(PROP, "C08.malformed", "connect wrote bytes the strict decoder rejects: %s %r" % (viol[0][2], viol[0][3]), {})
+    verbs = [r.decoded.verb for r in srv.log if r.call_id == o.call_id and r.decoded is not None]
+    if any(v not in (b"STARTTLS", b"AUTHENTICATE") for v in verbs):
+        return Failure(PROP, "C08.verb", "connect put %r on the wire (only STARTTLS / AUTHENTICATE belong to it)" % (verbs,), {})
     return None
 
 
